@@ -465,11 +465,14 @@ def main():
     ap.add_argument('--repo', default=os.environ.get('PYGYRO_REPO', '/repo'))
     ap.add_argument('--out', default=DEFAULT_OUT)
     ap.add_argument('--quiet', action='store_true')
+    ap.add_argument('--only', choices=['procgrid', 'blocks'], help='translate one target only')
     a = ap.parse_args()
     os.makedirs(a.out, exist_ok=True)
     status = 0
-    for fname, fn in (('ProcGridGen.lean', lambda: translate_process_grid(a.repo)[0]),
-                      ('BlocksGen.lean', lambda: translate_layout_blocks(a.repo))):
+    for key, fname, fn in (('procgrid', 'ProcGridGen.lean', lambda: translate_process_grid(a.repo)[0]),
+                           ('blocks', 'BlocksGen.lean', lambda: translate_layout_blocks(a.repo))):
+        if a.only and a.only != key:
+            continue
         path = os.path.join(a.out, fname)
         try:
             txt = fn()
